@@ -317,8 +317,10 @@ class Repo:
         self.unguarded = continue_guards_to_conditionals(trees)  # `if c: continue` + rest: the conditional block
         self.unrolled = unroll_object_loops(trees)  # loops over a literal tuple of objects: one copy of the body per object
         self.comprehended = loops_to_comprehensions(trees)  # list-building loops: the comprehension
+        from .inline import expand_dispatch_dicts
+        self.dispatched = expand_dispatch_dicts(trees)  # `if k in D: D[k](..)` over a literal dict of names: the explicit alternatives
         self.lowered = lower_conditional_values(trees)  # `return a if c else b`: the if / else statement
-        touched = {c.split(":")[0] for _, c, _ in self.inlined} | {c.split(":")[0] for c, _ in self.unrolled + self.comprehended + self.unguarded + self.lowered}
+        touched = {c.split(":")[0] for _, c, _ in self.inlined} | {c.split(":")[0] for c, _ in self.unrolled + self.comprehended + self.unguarded + self.lowered + self.dispatched}
         for modname, (path, rel, src, tree) in parsed.items():
             if modname in touched:
                 # positions are used to order constructs: give the normalised module consistent ones (the original file and line of
@@ -348,6 +350,15 @@ class Repo:
             f = c.methods.get(fn) if c else None
         else:
             f = m.functions.get(qual)
+        if f is None and "." in qual and c is not None:
+            # the method may have been moved up (base class, mixin) - it is still what `self.<name>` of this class runs ..
+            for base in c.mro()[1:]:
+                if fn in base.methods:
+                    f = base.methods[fn]
+                    break
+        if f is None and "." in qual:
+            # .. or out to a module-level function of the same name (a method that did not use self)
+            f = m.functions.get(qual.split(".", 1)[1])
         if f is None:
             raise AnalysisError(f"function {qual} not found in {modname} (anchor vanished)")
         return f
